@@ -143,6 +143,46 @@ def _l4_two_files(LA: int, LB: int, rs: int, b: int) -> bool:
     return totals['a.bam'] == {('chr1', 0, ea): {'cellA': 1}} and totals['b.bam'] == {('chr1', b * bi, be): {'cellA': 1}}
 
 
+def _l5_two_reads(bi: int, k: int, p1: int, p2: int, same_cell: bool) -> bool:
+    """
+    pre: 0 <= bi <= 3
+    pre: 1 <= k <= 4
+    pre: 0 <= p1 <= 9 and 0 <= p2 <= 9
+    post: _
+    """
+    # realistic scale: a 2.6 Mb contig, bins of 250 kb .. 1 Mb, two reads whose sites are picked around job / bin boundaries;
+    # every job split must give the same per-bin, per-cell table (a bin must never be produced by two jobs and merged by overwrite)
+    L = 2_600_000
+    b = pick([250_000, 300_000, 700_000, 1_000_000], bi)
+    POS = [0, 299_999, 300_000, 999_999, 1_000_000, 1_000_001, 1_199_999, 1_200_000, 2_099_999, 2_599_999]
+    s1, s2 = pick(POS, p1), pick(POS, p2)
+    reads = []
+    for i, s_ in enumerate(sorted((s1, s2))):
+        r = LRead(reference_name='chr1', reference_start=s_, cigartuples=[(0, 1)], seq='A', qual='I', is_read1=True, is_read2=False, mapping_quality=60)
+        r.mi, r.ds_present, r.ds, r.da_present = 0, False, 0, False
+        r.cell = 'cellA' if (same_cell or i == 0) else 'cellB'
+        reads.append(r)
+    # per-read sample: LRead.get_tag('SM') returns 'cellA'; give the second read its own cell through a subclass attribute
+    class R2(LRead):
+        def get_tag(self, t):
+            if t == 'SM':
+                return self.cell
+            return LRead.get_tag(self, t)
+    for r in reads:
+        r.__class__ = R2
+    PYS.files = {'x.bam': dict(references=['chr1'], lengths=[L], reads=reads)}
+    total = {}
+    for cmd in B.generate_commands('x.bam', bin_size=b, bins_per_job=k, max_fragment_size=1000, min_mq=50, key_tags=None, dedup=True, kwargs={}):
+        total = _merge(total, B.count_fragments_binned(cmd))
+    exp = {}
+    for r in reads:
+        i = r.reference_start // b
+        key = ('chr1', b * i, min(b * (i + 1), L))
+        exp.setdefault(key, {})
+        exp[key][r.cell] = exp[key].get(r.cell, 0) + 1
+    return total == exp
+
+
 def _l3_merge(n1: int, n2: int, a0: int, a1: int, b0: int, b1: int, c0: int, c1: int, order: bool) -> bool:
     """
     pre: 0 <= n1 <= 2 and 0 <= n2 <= 2
@@ -176,6 +216,8 @@ LEMMAS = [
                 'thorough': [dict(id='b%d_k%d_L%d' % (b, k, L), pre=['b == %d' % b, 'k == %d' % k, 'L == %d' % L]) for b in (1, 2, 3, 4) for k in (1, 2, 3, 4) for L in range(1, 13) if L <= b * k * 3]}),
     dict(name='L1_filters', fn='_l1_filters', engine='E1', timeout=_T, replay='replay.C12:replay'),
     dict(name='L4_two_files_same_contig_name', fn='_l4_two_files', engine='E1', timeout=_T, replay='replay.C12:replay'),
+    dict(name='L5_two_reads_megabase_scale', fn='_l5_two_reads', engine='E1', timeout=_T, replay='replay.C12:replay',
+         cases={'quick': [dict(id='b%d' % i, pre=['bi == %d' % i]) for i in range(4)]}),
     dict(name='L3_merge_order', fn='_l3_merge', engine='E1', timeout=_T, replay='replay.C12:replay'),
 ]
 
